@@ -25,7 +25,7 @@ Section FuelProps.
     (o_data o = [] \/ Z.to_N (m_off m) + lenN (o_data o) < g_size cfg) /\
     (streams m = false -> o_data o = []).
   Proof.
-    intros Hm Ho Hf Hg. apply chunk_otherwise; [exact Hm|exact Ho|].
+    intros Hm Ho Hf Hg Hv Hbp. apply (chunk_otherwise H cfg fuel evs m o Hm Ho); [|exact Hv|exact Hbp].
     subst o. apply chunk_fuel_suffices; assumption.
   Qed.
 
@@ -37,7 +37,7 @@ Section FuelProps.
     (o_data o = [] \/ Z.to_N (m_off m) + lenN (o_data o) < g_size cfg) /\
     (streams m = false -> o_data o = []).
   Proof.
-    intros Hm Ho Hf Hg. apply reader_otherwise; [exact Hm|exact Ho|].
+    intros Hm Ho Hf Hg Hv Hbp. apply (reader_otherwise H cfg fuel evs attach m o Hm Ho); [|exact Hv|exact Hbp].
     subst o. apply reader_fuel_suffices; assumption.
   Qed.
 
@@ -60,7 +60,7 @@ Section FuelProps.
     valid_script H cfg evs -> bad_param (g_size cfg) m = false ->
     completed m (o_err o) = true.
   Proof.
-    intros Hm Ho Hf Hg. apply chunk_valid_completes; [exact Hm|exact Ho|].
+    intros Hm Ho Hf Hg Hv Hbp. apply (chunk_valid_completes H cfg fuel evs m o Hm Ho); [|exact Hv|exact Hbp].
     subst o. apply chunk_fuel_suffices; assumption.
   Qed.
 
@@ -70,7 +70,7 @@ Section FuelProps.
     valid_script H cfg evs -> bad_param (g_size cfg) m = false ->
     completed m (o_err o) = true.
   Proof.
-    intros Hm Ho Hf Hg. apply reader_valid_completes; [exact Hm|exact Ho|].
+    intros Hm Ho Hf Hg Hv Hbp. apply (reader_valid_completes H cfg fuel evs attach m o Hm Ho); [|exact Hv|exact Hbp].
     subst o. apply reader_fuel_suffices; assumption.
   Qed.
 
